@@ -21,7 +21,7 @@ RULE = ("uniform-regime annotations of 0..25 lines in the 48 dialect points; eac
         "recording transform (modify / skip by falsy values) and inspect() with random look_for subsets and limits in "
         "{None,1,n-1,n,n+3}; non-trivial = n >= 3; distinct by (annotation text, form, checklines class)")
 REQUIRED = ["sparse-regime form comparisons", "form sequences compared", "databases compared", "one-shot pulls logged", "transform calls recorded",
-            "inspect results compared", "in-place edits of features with identical attribute columns compared", "transforms that raise: outcomes observed", "sources that raise: outcomes observed",
+            "inspect results compared", "in-place edits of features with identical attribute columns compared", "transforms that raise: outcomes observed", "sources that raise: outcomes observed", "what a transform saw compared across input forms",
             "sources that raise inside the look-ahead window", "large look-ahead windows: one-shot forms compared with the path form"] + ["form=" + f for f in FORMS]
 ASSUMPTIONS = [
     "annotations are written in the uniform regime, so every window infers the same dialect and all forms are comparable",
@@ -111,6 +111,8 @@ def execute(ctx, case):
             transform_raises(ctx, case)
         elif kind == "source_raises":
             source_raises(ctx, case)
+        elif kind == "transform_sees":
+            transform_sees(ctx, case)
         elif kind == "bigwindow":
             bigwindow(ctx, case)
     finally:
@@ -428,6 +430,47 @@ def transform_raises(ctx, case):
         cleanup(paths)
 
 
+def transform_sees(ctx, case):
+    """What a transform SEES is the same in every input form: the feature as the iteration yields it (its printed line,
+    its dialect), not a form-specific intermediate.  Sparse-regime annotations, where single lines exhibit less than the
+    voted dialect, are where the forms could differ."""
+    from gffutils.iterators import DataIterator
+
+    text, lines, paths = prepare_files(ctx, dict(case, bom=False))
+    paths["sparse"] = True
+    try:
+        seen_by_form = {}
+        for form in case["forms"]:
+            seen = []
+
+            def tr(f, seen=seen):
+                d = dict(f.dialect or {})
+                d.pop("order", None)
+                seen.append([str(f), sorted(d.items(), key=lambda kv: kv[0])])
+                return f
+            pulls = []
+            data, kw = make_source(ctx, form, paths, text, case["checklines"], pulls, transform=tr)
+            try:
+                list(DataIterator(data, checklines=case["checklines"], transform=tr, **kw))
+            except Exception as ex:
+                ctx.violation(case, {"why": "iteration with a transform raised %r" % (ex,), "form": form, "text": text})
+                return
+            seen_by_form[form] = seen
+        ref_form = case["forms"][0]
+        for form in case["forms"][1:]:
+            ctx.mon("what a transform saw compared across input forms")
+            if seen_by_form[form] != seen_by_form[ref_form]:
+                k = next((j for j in range(min(len(seen_by_form[form]), len(seen_by_form[ref_form])))
+                          if seen_by_form[form][j] != seen_by_form[ref_form][j]), None)
+                ctx.violation(case, {"why": "a transform sees another printed line / dialect in the %s form than in the %s form" % (form, ref_form),
+                                     "feature": k, form: seen_by_form[form][k] if k is not None else len(seen_by_form[form]),
+                                     ref_form: seen_by_form[ref_form][k] if k is not None else len(seen_by_form[ref_form]), "text": text})
+                return
+    finally:
+        paths.pop("sparse", None)
+        cleanup(paths)
+
+
 def source_raises(ctx, case):
     """A one-shot source that fails while producing item k (inside or beyond the look-ahead window): the failure surfaces
     as an exception - construction, iteration or import never just end as if the data had run out."""
@@ -536,11 +579,15 @@ def bigwindow(ctx, case):
             got = [str(f) for f in it]
             ctx.mon("large look-ahead windows: one-shot forms compared with the path form")
             d1 = dict(it.dialect); d0 = dict(ref.dialect)
+            # (the empty key is left out of the key order: lines of the losing spelling, parsed under the voted dialect, carry an
+            # empty key that per-line inference over the file does not see - a property of mixtures, not of the forms)
+            d1["order"] = [k_ for k_ in d1.get("order", []) if k_ != ""]
+            d0["order"] = [k_ for k_ in d0.get("order", []) if k_ != ""]
             if d1 != d0 or got != ref_lines:
                 k = next((j for j in range(min(len(got), len(ref_lines))) if got[j] != ref_lines[j]), None)
                 ctx.violation(case, {"why": "with checklines=%d the %s form does not agree with the path form" % (ck, how),
                                      "dialect_differs": {x: [d0.get(x), d1.get(x)] for x in d0 if d0.get(x) != d1.get(x) and x != "order"},
-                                     "order_differs": d0.get("order") != d1.get("order"), "first_differing_feature": k,
+                                     "first_differing_feature": k,
                                      "n": [len(ref_lines), len(got)]})
                 return
     finally:
@@ -677,6 +724,19 @@ def run(ctx):
         case = {"kind": "source_raises", "D": D, "items": [it for it in items if it["t"] == "feat"], "k": rng.randrange(0, n), "checklines": ck}
         execute(ctx, case)
         ctx.case(("source_raises", F.text_of(case["items"], D), case["k"], ck), n >= 3, cls="source raises")
+    for _ in range(ctx.budget(120, 6000)):
+        D, items = annotation(rng, sparse=True)
+        feats_ = [it for it in items if it["t"] == "feat"]
+        n = len(feats_)
+        recs_ = [it["rec"] for it in feats_]
+        ck = rng.choice([max(0, n - 1), n, n + 2, 10])
+        v1, v2 = F.window_vote(recs_, D, ck), F.window_vote(recs_, D, ck + 1)
+        if not (F.same_dialect(v1, D) and F.same_dialect(v2, D)) or v1["order"] != v2["order"]:
+            ctx.skip("transform_sees: the reference vote does not recover the dialect under both window conventions")
+            continue
+        case = {"kind": "transform_sees", "D": D, "items": items, "checklines": ck, "forms": ["path", "list", "generator", "string", "iterator_object"]}
+        execute(ctx, case)
+        ctx.case(("transform_sees", F.text_of(items, D), ck), n >= 3, cls="transform sees (sparse regime)")
     if ctx.shard == 0 or ctx.tier == "thorough":
         D = rng.choice([p for p in M.points() if not p["trailing"]])
         D2 = dict(D, trailing=True)
